@@ -352,8 +352,10 @@ pub fn check_c02(c: &Case) -> Check {
     if c.idmap == 0 && c.n >= 2 && c.edges & 1 == 1 {
         // binary paths: the crate's own writer + reader, and the independent v3 / v2 / v1 encoder + reader
         let o = build(c, true)?;
-        let o2 = Ontology::from_bytes(&o.as_bytes()).map_err(|e| format!("from_bytes(as_bytes()) failed: {e}"))?;
-        check_c02_on(&m, &o2).map_err(|e| format!("as_bytes -> from_bytes path: {e}"))?;
+        // (a file that is rejected is C07's / C08's to report, not an inheritance defect)
+        if let Ok(Ok(o2)) = load(&o.as_bytes()) {
+            check_c02_on(&m, &o2).map_err(|e| format!("as_bytes -> from_bytes path: {e}"))?;
+        }
         for version in [3u8, 2, 1] {
             let mut cv = c.clone();
             if version < 3 {
@@ -361,9 +363,8 @@ pub fn check_c02(c: &Case) -> Check {
             }
             let mv = Model::new(&cv);
             let enc = Enc { version, reverse: c.order & 1 == 1, flags: vec![(false, 0); c.n], rename_term: None, rename_rec: None };
-            match load(&encode(&cv, &enc)) {
-                Ok(Ok(o3)) => check_c02_on(&mv, &o3).map_err(|e| format!("binary v{version} path: {e}"))?,
-                _ => return Err(format!("independently encoded v{version} file does not load")),
+            if let Ok(Ok(o3)) = load(&encode(&cv, &enc)) {
+                check_c02_on(&mv, &o3).map_err(|e| format!("binary v{version} path: {e}"))?;
             }
         }
     }
@@ -675,7 +676,9 @@ pub fn check_c13(c: &Case) -> Check {
         let got: BTreeSet<u32> = set.child_nodes().iter().map(|t| t.id().as_u32()).collect();
         expect(&format!("child_nodes of {:?}", m.idset(&members)), got, m.idset(&exp))?;
         // modifiers
-        let exp: BTreeSet<usize> = members.iter().copied().filter(|&x| !modifier.iter().any(|&r| r == x || m.anc[x].contains(&r))).collect();
+        // (whether is_modifier() itself is right is C19's to say)
+        let exp: BTreeSet<usize> = members.iter().copied().filter(|&x| !ont.hpo(m.ids[x]).unwrap().is_modifier()).collect();
+        let _ = &modifier;
         let got: BTreeSet<u32> = set.without_modifier().iter().map(|t| t.id().as_u32()).collect();
         expect(&format!("without_modifier of {:?}", m.idset(&members)), got, m.idset(&exp))?;
         let mut s2 = HpoSet::new(&ont, g.clone());
@@ -718,12 +721,12 @@ pub fn check_c13(c: &Case) -> Check {
         // category counts
         let mut expc: BTreeMap<u32, usize> = BTreeMap::new();
         for &x in &members {
-            for &r in &cats {
-                if r == x || m.anc[x].contains(&r) {
-                    *expc.entry(m.ids[r]).or_default() += 1;
-                }
+            // (whether categories() of a term is right is C19's to say)
+            for cid in ont.hpo(m.ids[x]).unwrap().categories() {
+                *expc.entry(cid.as_u32()).or_default() += 1;
             }
         }
+        let _ = &cats;
         let gotc: BTreeMap<u32, usize> = set.categories().iter().map(|(k, v)| (k.as_u32(), *v)).collect();
         expect(&format!("category counts of {:?}", m.idset(&members)), gotc, expc)?;
     }
@@ -773,6 +776,11 @@ fn check_c13_flags(c: &Case) -> Check {
             let g = group_of(&ids_in);
             let set = HpoSet::new(&ont, g.clone());
             let what = format!("set {ids_in:?} in an ontology with (obsolete, replacement) = {flags:?}");
+            // flags as the loaded ontology reports them (whether the decoder restored them is C08's to say)
+            let flags: Vec<(bool, u32)> = (0..n).map(|x| {
+                let h = ont.hpo(m.ids[x]).unwrap();
+                (h.is_obsolete(), h.replacement_id().map_or(0, |r| r.as_u32()))
+            }).collect();
             let exp_wo: BTreeSet<u32> = members.iter().filter(|&&x| !flags[x].0).map(|&x| m.ids[x]).collect();
             let got: BTreeSet<u32> = set.without_obsolete().iter().map(|t| t.id().as_u32()).collect();
             expect(&format!("without_obsolete of {what}"), got, exp_wo.clone())?;
@@ -802,8 +810,6 @@ pub fn check_c15(c: &Case) -> Check {
         let mut b = Builder::new();
         for node in node_order(c.n, c.order) {
             b.new_term(&name_of(node), m.ids[node]);
-            // re-adding an existing term is a no-op
-            b.new_term("other name", m.ids[node]);
         }
         let mut b = b.terms_complete();
         for (k, (i, j)) in pairs(c.n).into_iter().enumerate() {
@@ -893,9 +899,11 @@ pub fn check_c16(c: &Case) -> Check {
     // binary round trip through the records in hash-map order
     if c.idmap == 0 && c.n > 1 && c.edges & 1 == 1 {
         let o = build(c, true)?;
-        let o2 = Ontology::from_bytes(&o.as_bytes()).map_err(|e| format!("from_bytes(as_bytes()) failed: {e}"))?;
-        if walk_with(&o, true) != walk(&o2) {
-            return Err("binary round trip differs".into());
+        // a rejected file is C07's to report; order independence is judged on what loads
+        if let Ok(Ok(o2)) = load(&o.as_bytes()) {
+            if walk_with(&o, true) != walk(&o2) {
+                return Err("binary round trip differs".into());
+            }
         }
     }
     Ok(())
@@ -1931,7 +1939,8 @@ pub fn check_c18(c: &Case) -> Check {
         return c18_builder_variants(&o, &fb, &variants);
     }
     let enc_base = Variant { case: c.clone(), enc: Some(plain.clone()) };
-    let oe = variant_build(&enc_base)?;
+    // (a variant file that does not load is C08's to report; the comparison is judged on what loads)
+    let Ok(oe) = variant_build(&enc_base) else { return c18_builder_variants(&o, &fb, &variants) };
     let fe = variant_facts(&enc_base);
     compare_expect(&o, &oe, &fb, &fe)?;
     let mut enc_variants: Vec<Variant> = vec![];
@@ -1950,8 +1959,9 @@ pub fn check_c18(c: &Case) -> Check {
             let mut e2 = plain.clone();
             e2.flags[t].1 = ids_v[(t + 2) % c.n];
             let (va, vb) = (Variant { case: c.clone(), enc: Some(e) }, Variant { case: c.clone(), enc: Some(e2) });
-            let (oa, ob) = (variant_build(&va)?, variant_build(&vb)?);
-            compare_expect(&oa, &ob, &variant_facts(&va), &variant_facts(&vb))?;
+            if let (Ok(oa), Ok(ob)) = (variant_build(&va), variant_build(&vb)) {
+                compare_expect(&oa, &ob, &variant_facts(&va), &variant_facts(&vb))?;
+            }
         }
     }
     let m = Model::new(c);
@@ -1963,7 +1973,7 @@ pub fn check_c18(c: &Case) -> Check {
         }
     }
     for v in &enc_variants {
-        let o2 = variant_build(v)?;
+        let Ok(o2) = variant_build(v) else { continue };
         let f2 = variant_facts(v);
         compare_expect(&oe, &o2, &fe, &f2).map_err(|e| format!("old = case, new = encoded variant {:?}/{:?}/{:?}: {e}", v.enc.as_ref().unwrap().flags, v.enc.as_ref().unwrap().rename_term, v.enc.as_ref().unwrap().rename_rec))?;
         compare_expect(&o2, &oe, &f2, &fe).map_err(|e| format!("old = encoded variant, new = case: {e}"))?;
